@@ -229,6 +229,8 @@ pub fn run_case(c: &Sexp) -> Sexp {
                 })
             }
         }
+        // (serde TYPE SEED [BLOCKSIZE]) -> see corpus.rs
+        "serde" => crate::corpus::serde_case(a),
         // (parse-list #text ...) -> (ok SCHEMA ...) | (err) | (panic)
         "parse-list" => {
             let mut texts = Vec::new();
